@@ -356,21 +356,13 @@ def predict_all(w, c):
                 continue
             cols.append(column[name])
             blks.append(np.frombuffer(parityoracle.block_bytes(cur, idx, bs), dtype=np.uint8))
-            if st_ == cfparse.REP:
-                # a copy-detected block carries the hash of the file it was taken for a copy of; what scrub compares is that hash
-                # with the bytes on disk (e.g. a silently damaged file that was then moved: the harness has registered the bytes
-                # that were moved, the hash is the one of the undamaged data)
-                info_ = c.info[pos]
-                kind_, seed_ = c.prevhash if (info_ and info_.rehash) else c.hash
-                if hashes.memhash(kind_, seed_, blk)[:c.hash_size] != h:
-                    generic = True
-                continue
             if st_ in (cfparse.BLK, cfparse.REP):
-                if ver is None:
-                    unknown = True
-                    continue
-                want = ver[idx * bs:(idx + 1) * bs]
-                if blk != want:
+                # what scrub compares is the recorded hash with the bytes on disk.  The harness's own registered version is not
+                # the reference: a copy of a silently damaged file registers the damaged bytes, while the block carries the hash
+                # of the undamaged source, and fix legitimately restores THOSE bytes
+                info_ = c.info[pos]
+                kind_, seed_ = c.prevhash if (info_ and info_.rehash and c.prevhash and c.prevhash[0] is not None) else c.hash
+                if hashes.memhash(kind_, seed_, blk)[:c.hash_size] != h:
                     if (not same) or st_ != cfparse.BLK:
                         generic = True
                     else:
